@@ -18,7 +18,7 @@ HOOKS = {
 
 ENGINES = [
     {'name': 'vf', 'path': 'vf/harness.py',
-     'serves_properties': ['C07', 'C13', 'C20'],
+     'serves_properties': ['C07', 'C13', 'C16', 'C20'],
      'kind_free_text': ('runtime monitoring driver: 16 worker processes import the real '
                         'openhtf from /repo, run enumerated + seeded cases, monitors '
                         'decide each property from observed events; witnesses are '
@@ -68,5 +68,17 @@ CHECKS = {
                  'header and payload must still move the payload'),
         'note': ('preemption bound 1 over the lines reached, plus seeded yield injection; payloads are latin-1 str; '
                  'trusts the fake transport in vf/props/c13.py'),
+    },
+    'C16': {
+        'level': 'exploration',
+        'technique': 'runtime protocol-automaton monitoring: scripted fake bootloader records packets; returns/exceptions/callbacks of the real FastbootCommands compared with a reference automaton over all response sequences',
+        'text': ('every FastbootCommands method is driven against a scripted fake bootloader with all response '
+                 'sequences of length <= 4 (quick) / <= 5 (thorough) over {INFO, OKAY, DATA(size), DATA(other), '
+                 'FAIL, garbage}; downloads use image sizes {0,1,c-1,c,c+1,2c-1,2c,2c+1,3c+5} from a file name, '
+                 'a file object with and without length, with recording and raising progress callbacks; packets, '
+                 'image bytes, chunk sizes, progress, INFO forwarding, number of reads, return values and '
+                 'exception classes/text are compared with the automaton'),
+        'note': ('trusts the 40-line automaton in vf/props/c16.py; FastbootDevice retry wrapper and erase() return '
+                 'value are not claimed'),
     },
 }
